@@ -958,7 +958,7 @@ def search_dicts(ctx):
         "ResetChannel": "gates.ResetChannel(0, [0.1, 0.2])",
         "ThermalRelaxationChannel": "gates.ThermalRelaxationChannel(0, [1.0, 0.5, 0.1, 0.2])",
         "ReadoutErrorChannel": "gates.ReadoutErrorChannel(0, np.array([[0.9, 0.1], [0.2, 0.8]]))",
-        "KrausChannel": "gates.KrausChannel([(0,)], [np.sqrt(0.5) * np.eye(2), np.sqrt(0.5) * np.array([[0, 1], [1, 0]])])",
+        "KrausChannel": "gates.KrausChannel([(0,), (0,)], [np.sqrt(0.5) * np.eye(2), np.sqrt(0.5) * np.array([[0, 1], [1, 0]])])",
         "UnitaryChannel": "gates.UnitaryChannel([(1,)], [(0.3, np.array([[0, 1], [1, 0]]))])",
     }
     for nm, expr in chans.items():
